@@ -177,7 +177,7 @@ template <class SP, class DP> struct Pair
     Tally t;
 
     explicit Pair(vh::Ctx& c) : ctx(c), pid(PName<SP>::s() + ">" + PName<DP>::s()) {}
-    ~Pair() { t.flush(ctx); }
+    ~Pair() { t.flush(ctx); if (nfail) ctx.counters["failing_cases_before_cap"] += nfail; }
 
     std::string sid(ST const* sv) const
     {
